@@ -155,6 +155,43 @@ class Env:
             self.pre.append(sym.in_int32(z3.Select(self.arrays["ia"][0], k)))
         self.cache = {}
         self.check_overflow = True
+        self.float_mode = float_sort  # 'real' (exact) or 'uf' (operation DAG preserved)
+        self.wrap = False  # int32 arithmetic wraps (two's complement) instead of being checked
+
+    def int_result(self, v, safe):
+        """Result and safety of an int32 operation under the environment's overflow policy."""
+        if self.wrap:
+            if isinstance(v, int):
+                return ((v + 2**31) % 2**32) - 2**31, safe
+            return ((v + 2**31) % 2**32) - 2**31, safe
+        if self.check_overflow:
+            return v, band(safe, sym.in_int32(v))
+        return v, safe
+
+    # float operations (values: Fraction constants or z3 Real-sorted terms)
+    def fadd(self, a, b):
+        if self.float_mode == "uf":
+            a, b = sorted((rz(a), rz(b)), key=lambda t: t.get_id())
+            return sym._fadd(a, b)
+        return radd(a, b)
+
+    def fsub(self, a, b):
+        if self.float_mode == "uf":
+            return sym._fsub(rz(a), rz(b))
+        return rsub(a, b)
+
+    def fmul(self, a, b):
+        if self.float_mode == "uf":
+            a, b = sorted((rz(a), rz(b)), key=lambda t: t.get_id())
+            return sym._fmul(a, b)
+        return rmul(a, b)
+
+    def itof(self, x):
+        if isinstance(x, (int, Fraction)) and not isinstance(x, bool):
+            return Fraction(x)
+        if self.float_mode == "uf":
+            return sym._sitofp(x)
+        return z3.ToReal(x)
 
 
 def fr(x):
@@ -208,7 +245,8 @@ def _meaning(e, env):
             return (VAR_TYPES[e.name], e.name, True, ())
         raise KeyError(e.name)
     if t is ir.IntegerLiteral:
-        return ("int", e.value, sym.INT_MIN <= e.value <= sym.INT_MAX, ())
+        # a literal is a mathematical integer; only operations are range-checked
+        return ("int", e.value, True, ())
     if t is ir.FloatLiteral:
         return ("float", Fraction(e.value), True, ())
     if t is ir.BooleanLiteral:
@@ -220,10 +258,12 @@ def _meaning(e, env):
         acc = aa + ab
         if ta == "int" and tb == "int":
             v = iadd(a, b) if t is ir.Add else isub(a, b) if t is ir.Subtract else imul(a, b)
-            return ("int", v, band(safe, sym.in_int32(v)) if env.check_overflow else safe, acc)
+            v, safe = env.int_result(v, safe)
+            return ("int", v, safe, acc)
         if ta in ("int", "float") and tb in ("int", "float"):
-            a, b = fr(a), fr(b)
-            v = radd(a, b) if t is ir.Add else rsub(a, b) if t is ir.Subtract else rmul(a, b)
+            a = env.itof(a) if ta == "int" else a
+            b = env.itof(b) if tb == "int" else b
+            v = env.fadd(a, b) if t is ir.Add else env.fsub(a, b) if t is ir.Subtract else env.fmul(a, b)
             return ("float", v, safe, acc)
         raise TypeError("ill-typed arithmetic")
     if t in CMPS:
